@@ -496,6 +496,7 @@ fn main() {
     let n_hand: usize = arg(&args, "--hand", "30").parse().unwrap();
     let n_modseq: usize = arg(&args, "--modseq", "30").parse().unwrap();
     let exhaustive: usize = arg(&args, "--exhaustive", "0").parse().unwrap();
+    let no_enum: usize = arg(&args, "--no-enum", "0").parse().unwrap();
     let outdir = PathBuf::from(arg(&args, "--out", "out"));
     let corpus = arg(&args, "--corpus", "");
     std::fs::create_dir_all(&outdir).unwrap();
@@ -586,7 +587,7 @@ fn main() {
     }
     // every order of the four kinds (quick), every sequence of length 3 and 4 (exhaustive), on the
     // fixed shape, for an ordinary column and for the auto-increment key column
-    let mut seqs = permutations(&EDITS);
+    let mut seqs = if no_enum > 0 { vec![] } else { permutations(&EDITS) };
     if exhaustive > 0 {
         seqs.extend(sequences(3));
         seqs.extend(sequences(4));
